@@ -20,8 +20,7 @@ DERIVATIVES = ["european.EuropeanOption", "lookback.LookbackOption", "european_b
 def nsteps_normal(t, h, dt):
     """True iff t == ceil(h/dt) + 1 in one of the accepted spellings (optionally with a rounding guard)."""
     def quotient(x):
-        if isinstance(x, Op) and x.op in ("py_round", "ext:builtins.round") and x.args:
-            x = x.args[0]
+        x = strip_guard(x)
         return isinstance(x, Op) and x.op == "div" and x.args[0] == h and x.args[1] == dt
     if isinstance(t, Op) and t.op == "py_int" and t.args:
         t = t.args[0]
@@ -36,8 +35,29 @@ def nsteps_normal(t, h, dt):
     return False
 
 
+def is_guard(x):
+    """round(q, d) with a literal 6 <= d <= 12: absorbs floating-point noise of a quotient of step counts (spacing < 1e-10 up to ~1e5 steps)
+    and leaves every ratio that is not within 1e-6 of an integer alone.  round(q) without digits is NOT a guard: it changes non-integer ratios."""
+    if not (isinstance(x, Op) and x.op in ("py_round", "ext:builtins.round")):
+        return False
+    d = x.args[1] if len(x.args) > 1 else x.kwd().get("ndigits")
+    return isinstance(d, int) and not isinstance(d, bool) and 6 <= d <= 12
+
+
+def strip_guard(x):
+    return x.args[0] if is_guard(x) else x
+
+
 def rounding_guarded(t):
-    return any(isinstance(s, Op) and s.op in ("py_round", "ext:builtins.round") for s in walk(t))
+    """every ceil/floor in t is applied to a guarded quotient (possibly plus an integer)"""
+    for s in walk(t):
+        if isinstance(s, Op) and s.op in ("py_ceil", "py_floor"):
+            a = s.args[0]
+            parts = list(a.args) if isinstance(a, Op) and a.op == "add" else [a]
+            quot = [q for q in parts if not (isinstance(q, int) and not isinstance(q, bool))]
+            if not quot or not all(is_guard(q) for q in quot):
+                return False
+    return True
 
 
 def check(ctx, run):
